@@ -66,6 +66,29 @@ def outer(first, second=1, *rest, key=None, **extra):
 pair = outer(1)
 pair[0](2)
 ''',
+    'from-on-a-continuation-line': '''def chain(gen, make):
+    try:
+        value = make()
+    except Exception as ex:
+        raise ValueError(ex) \\
+            from ex
+    result = yield \\
+        from gen
+    return result, value
+''',
+    'bindings-inside-expressions': '''def scan(count, limit, second, rows):
+    if (n := count) > limit:
+        return n
+    c = count or (found := second)
+    while (m := limit) and m:
+        m = m - count
+    total = [(y := row) + y for row in rows if (z := row) and z]
+    pick = n if (w := second) else w
+    with open(second) as fh, open(limit) as fh2:
+        data = fh.read() + fh2.read()
+    for idx, (key, val) in rows: print(idx, key, val)
+    return c, found, total, pick, data
+''',
 }
 
 
@@ -97,8 +120,8 @@ print('REPRODUCED: inserting the cursor changed the analysis' if list(got[1]) !=
 
 
 @harness(['C12'], 'supp.assistant.assist [cursor inside and at the end of every name read and attribute access: transparency of the mark]',
-         bounded='3 programs (functions with every kind of control flow and parameters, a class hierarchy with instance attributes, closures / '
-                 'globals / lambda) x every name read (cursor after the first character, in the middle, at the end) and every attribute access '
+         bounded='5 programs (functions with every kind of control flow and parameters, a class hierarchy with instance attributes, closures / '
+                 'globals / lambda, bindings made inside expressions: walrus in tests, operands and comprehensions, with items, tuple targets; `raise ... from` / `yield from` broken before `from`) x every name read (cursor after the first character, in the middle, at the end) and every attribute access '
                  '(cursor after the dot, after the first character, at the end)')
 def mark_transparency(run):
     """BOUNDED whole-pipeline stand-in: proposals == what the unmarked analysis makes visible at the cursor (names_at for a bare name, the
